@@ -12,6 +12,7 @@ import (
 	"os"
 	"sort"
 	"strings"
+	"time"
 
 	"github.com/sirupsen/logrus"
 
@@ -127,11 +128,12 @@ func forEachOutcome(n int, alphabet []int, f func(outs []int)) {
 // ---- driver ----
 
 type fakeRunner struct {
-	cfg    *Cfg
-	stages map[string]*scheduler.Stage
-	fail   map[string]bool
-	deps   map[string][]string
-	allow  map[string]bool
+	cfg     *Cfg
+	stages  map[string]*scheduler.Stage
+	fail    map[string]bool
+	deps    map[string][]string
+	depAlts map[string][][]string // shared pipeline objects: one alternative per including stage
+	allow   map[string]bool
 }
 
 func (r *fakeRunner) Run(t *task.Task) error {
@@ -144,24 +146,47 @@ func (r *fakeRunner) Run(t *task.Task) error {
 		}
 	}
 	// C01, checked at the very moment the task is handed to the runner: every dependency of the
-	// stage has published a final status.
-	for _, d := range r.deps[key] {
-		st := r.stages[d]
-		if st == nil {
-			continue
-		}
-		switch st.Status { // plain read: this thread holds the baton
-		case scheduler.StatusDone, scheduler.StatusSkipped:
-		case scheduler.StatusError:
-			if !st.AllowFailure {
-				vrt.Fail("C01|%s started while dependency %s has failed", key, d)
+	// stage has published a final status. A pipeline object included by several stages may be
+	// started through any of them: one alternative set of outer dependencies has to be satisfied.
+	alts := r.depAlts[key]
+	if len(alts) == 0 {
+		alts = [][]string{r.deps[key]}
+	}
+	firstFail := ""
+	for _, alt := range alts {
+		fail := ""
+		for _, d := range alt {
+			st := r.stages[d]
+			if st == nil {
+				continue
 			}
-		default:
-			vrt.Fail("C01|%s started while dependency %s has status %d", t.Name, d, st.Status)
+			switch st.Status { // plain read: this thread holds the baton
+			case scheduler.StatusDone, scheduler.StatusSkipped:
+			case scheduler.StatusError:
+				if !st.AllowFailure && fail == "" {
+					fail = fmt.Sprintf("C01|%s started while dependency %s has failed", key, d)
+				}
+			default:
+				if fail == "" {
+					fail = fmt.Sprintf("C01|%s started while dependency %s has status %d", key, d, st.Status)
+				}
+			}
+		}
+		if fail == "" {
+			firstFail = ""
+			break
+		}
+		if firstFail == "" {
+			firstFail = fail
 		}
 	}
+	if firstFail != "" {
+		vrt.Fail("%s", firstFail)
+	}
 	vrt.Emit("start", key)
-	vrt.Park("run:" + key)
+	if !r.cfg.NoPark {
+		vrt.Park("run:" + key)
+	}
 	vrt.Emit("end", key)
 	if r.fail[key] {
 		switch r.cfg.ErrKind {
@@ -190,9 +215,10 @@ type built struct {
 
 func build(cfg *Cfg) (*built, error) {
 	b := &built{stages: map[string]*scheduler.Stage{}}
-	r := &fakeRunner{cfg: cfg, stages: b.stages, fail: map[string]bool{}, deps: map[string][]string{}, allow: map[string]bool{}}
+	r := &fakeRunner{cfg: cfg, stages: b.stages, fail: map[string]bool{}, deps: map[string][]string{}, depAlts: map[string][][]string{}, allow: map[string]bool{}}
 	b.runner = r
 	var shared *task.Task
+	innerGraphs := map[string]*scheduler.ExecutionGraph{}
 	var mk func(g *GraphCfg, outerDeps []string) (*scheduler.ExecutionGraph, error)
 	mk = func(g *GraphCfg, outerDeps []string) (*scheduler.ExecutionGraph, error) {
 		var sts []*scheduler.Stage
@@ -204,9 +230,18 @@ func build(cfg *Cfg) (*built, error) {
 			}
 			all := append(append([]string{}, outerDeps...), s.Deps...)
 			if s.Inner != nil {
-				ig, err := mk(s.Inner, all)
-				if err != nil {
-					return nil, err
+				var ig *scheduler.ExecutionGraph
+				if cfg.SharedInner {
+					ig = innerGraphs[s.Inner.String()]
+					addAlts(r, s.Inner, all)
+				}
+				if ig == nil {
+					var err error
+					ig, err = mk(s.Inner, all)
+					if err != nil {
+						return nil, err
+					}
+					innerGraphs[s.Inner.String()] = ig
 				}
 				st.Pipeline = ig
 			} else {
@@ -221,6 +256,7 @@ func build(cfg *Cfg) (*built, error) {
 					st.Task = task.FromCommands("true")
 					st.Task.Name = s.Name
 				}
+				applyAttrs(st.Task, cfg.Attrs)
 				r.fail[s.Name] = s.Fail
 				r.deps[s.Name] = all
 			}
@@ -232,6 +268,39 @@ func build(cfg *Cfg) (*built, error) {
 	g, err := mk(&cfg.G, nil)
 	b.g = g
 	return b, err
+}
+
+// addAlts records, for every leaf of a shared inner pipeline, the dependencies it has when reached
+// through one including stage.
+func addAlts(r *fakeRunner, g *GraphCfg, outer []string) {
+	for _, s := range g.Stages {
+		all := append(append([]string{}, outer...), s.Deps...)
+		if s.Inner != nil {
+			addAlts(r, s.Inner, all)
+			continue
+		}
+		r.depAlts[s.Name] = append(r.depAlts[s.Name], all)
+	}
+}
+
+// applyAttrs sets task attributes that have nothing to do with scheduling.
+func applyAttrs(t *task.Task, attrs int) {
+	if attrs&1 != 0 {
+		t.Interactive = true
+	}
+	if attrs&2 != 0 {
+		d := time.Hour
+		t.Timeout = &d
+	}
+	if attrs&4 != 0 {
+		t.ExportAs = "EXPORTED"
+	}
+	if attrs&8 != 0 {
+		t.Context = "somecontext"
+	}
+	if attrs&16 != 0 {
+		t.Dir = "/somewhere"
+	}
 }
 
 func classOf(st *scheduler.Stage) string {
@@ -358,17 +427,37 @@ func judge(cfg *Cfg, m *Model, x *vrt.Execution, first *string) [][3]string {
 	}
 	// C01 on the event log: at start(s) every dependency that runs has ended
 	ended := map[string]bool{}
+	inFlight := map[string]int{} // executions of a task that have started and not ended
 	for _, e := range x.Events {
 		switch e.Kind {
 		case "end":
 			ended[e.Arg] = true
+			inFlight[e.Arg]--
 		case "start":
-			for _, d := range allDeps(m, e.Arg) {
-				for _, t := range tasksOf(&cfg.G, d) {
-					if m.Run[t] && !ended[t] {
-						add("C01", "C01:start-before-dependency-end", fmt.Sprintf("%s started before %s (needed by dependency %s) ended", e.Arg, t, d))
+			inFlight[e.Arg]++
+			msg := ""
+			for _, alt := range depAlternatives(m, e.Arg) {
+				bad := ""
+				for _, d := range alt {
+					for _, t := range tasksOf(&cfg.G, d) {
+						if m.Run[t] && !ended[t] && bad == "" {
+							bad = fmt.Sprintf("%s started before %s (needed by dependency %s) ended", e.Arg, t, d)
+						}
+						if m.Run[t] && ended[t] && inFlight[t] > 0 && bad == "" {
+							bad = fmt.Sprintf("%s started while an execution of %s (needed by dependency %s) is still running", e.Arg, t, d)
+						}
 					}
 				}
+				if bad == "" {
+					msg = ""
+					break
+				}
+				if msg == "" {
+					msg = bad
+				}
+			}
+			if msg != "" {
+				add("C01", "C01:start-before-dependency-end", msg)
 			}
 		}
 	}
@@ -455,11 +544,23 @@ func flatten(g *GraphCfg) []StageCfg {
 	return out
 }
 
-// allDeps: dependencies of task t's stage plus those of every enclosing stage.
-func allDeps(m *Model, t string) []string {
-	var out []string
-	for n := t; n != ""; n = m.parent[n] {
-		out = append(out, m.deps[n]...)
+// depAlternatives: the dependency sets under which task t may start: its own depends_on plus those of
+// the enclosing stages, one alternative per chain of including stages (a pipeline object may be
+// included by several stages).
+func depAlternatives(m *Model, t string) [][]string {
+	ps := m.parents[t]
+	if len(ps) == 0 {
+		ps = []string{""}
+	}
+	var out [][]string
+	for _, p := range ps {
+		if p == "" {
+			out = append(out, append([]string{}, m.deps[t]...))
+			continue
+		}
+		for _, alt := range depAlternatives(m, p) {
+			out = append(out, append(append([]string{}, m.deps[t]...), alt...))
+		}
 	}
 	return out
 }
@@ -521,6 +622,11 @@ func exploreCfg(res *common.Result, cfg *Cfg, bound int, quiescentOnly bool, pru
 			}
 		}
 	}
+	if cfg.NoPark {
+		// wide graphs: the schedule space of 17..65 threads is not enumerable; the stated bound is the first
+		// 16 schedules in depth-first order, the enumeration is over sizes, shapes and outcomes
+		ecfg.MaxExecs = 16
+	}
 	st := vrt.Explore(ecfg, body(cfg, m), func(x *vrt.Execution) bool {
 		if x.Outcome == vrt.Diverged {
 			fmt.Fprintf(os.Stderr, "replay divergence in %s: %s\n", cfg, x.PanicVal)
@@ -567,6 +673,10 @@ func exploreCfg(res *common.Result, cfg *Cfg, bound int, quiescentOnly bool, pru
 		res.Nontrivial++
 	}
 	res.Extra["distinct_observations"] += int64(len(distinct))
+	if cfg.NoPark && viol == nil && st.Capped == "max executions" {
+		st.Exhaustive = true // the cap IS the stated bound of this unit
+		res.Extra["first_16_schedules_only_configs"]++
+	}
 	if viol == nil && !st.Exhaustive {
 		res.Exhaustive = false
 		res.Capped = st.Capped
